@@ -326,6 +326,15 @@ func c13One(r *Run, pool *Pool, c c13Case, cfgSeed uint64, st *c13Stats) {
 						break
 					}
 				}
+				// a string statement that spells "use strict" only through an escape or a line continuation is not a
+				// Use Strict Directive; esbuild treats it as one (cause isolated by spelling the string differently)
+				// (likewise a parenthesized string statement)
+				if strings.Contains(c.Src, "use\\x20strict") || strings.Contains(c.Src, "use strict\\\n") || strings.Contains(c.Src, "('use strict')") {
+					s2 := strings.NewReplacer("use\\x20strict", "use_strict", "use strict\\\n", "use_strict", "('use strict')", "('use_strict')").Replace(c.Src)
+					if r2, _ := transformSafe(s2, api.TransformOptions{Loader: api.LoaderJS}); len(r2.Errors) == 0 {
+						sig = "reject:non-directive-use-strict-string"
+					}
+				}
 				if reASIPostfix.MatchString(c.Src) {
 					s2 := reASIPostfix.ReplaceAllString(c.Src, "${1};\n(")
 					r2, _ := transformSafe(s2, api.TransformOptions{Loader: api.LoaderJS})
